@@ -3,6 +3,7 @@
 package raft
 
 import (
+	"bytes"
 	"context"
 	"errors"
 	"fmt"
@@ -21,6 +22,7 @@ import (
 	peer "github.com/libp2p/go-libp2p-core/peer"
 	rpc "github.com/libp2p/go-libp2p-gorpc"
 	libp2praft "github.com/libp2p/go-libp2p-raft"
+	codec "github.com/ugorji/go/codec"
 
 	"go.opencensus.io/tag"
 	"go.opencensus.io/trace"
@@ -321,6 +323,13 @@ func (cc *Consensus) commit(ctx context.Context, op *LogOp, rpcOp string, redire
 		}
 	}
 
+	// An operation that cannot be read back from its serialized form
+	// would be acknowledged but never applied, and would leave the state
+	// of every peer inconsistent. Refuse it.
+	if err := checkDecodable(op); err != nil {
+		return fmt.Errorf("operation cannot be committed: %s", err)
+	}
+
 	var finalErr error
 	for i := 0; i <= cc.config.CommitRetries; i++ {
 		logger.Debugf("attempt #%d: committing %+v", i, op)
@@ -361,6 +370,19 @@ func (cc *Consensus) commit(ctx context.Context, op *LogOp, rpcOp string, redire
 		time.Sleep(cc.config.CommitRetryDelay)
 	}
 	return finalErr
+}
+
+// checkDecodable serializes the operation as go-libp2p-raft does for the log
+// and checks that it can be decoded again.
+func checkDecodable(op *LogOp) error {
+	var buf bytes.Buffer
+	err := codec.NewEncoder(&buf, &codec.MsgpackHandle{}).Encode(op)
+	if err != nil {
+		return err
+	}
+	h := &codec.MsgpackHandle{}
+	h.ErrorIfNoField = true
+	return codec.NewDecoder(&buf, h).Decode(&LogOp{})
 }
 
 // LogPin submits a Cid to the shared state of the cluster. It will forward
